@@ -74,7 +74,7 @@ def run(ck):
         c['timeout'] = (1 + (k // 5) % (c['iters'] - 1)) if (k % 5 == 3 and c['iters'] >= 2) else None
         budget = c['iters'] if c['timeout'] is None else c['timeout']
         o = sc.run_real_fit(xr, c['iters'], c['arg'], c['scores'], metric, c['early'], c['mult'], c['rb'],
-                            ctor_iters=c['iters'], ctor_metric=c['ctor_metric'], timeout_round=c['timeout'])
+                            ctor_iters=c['iters'], ctor_metric=c['ctor_metric'], timeout_round=c['timeout'], return_Ms=bool(k % 3 == 1))          # every third history also asks for the list of per-round matrices (a pure by-product)
         if c['timeout'] is not None:
             ck.count('clock runs out at the top of a round')
         ck.case(dict(c, observed={a: b for a, b in o.items()}), nontrivial=len(set(c['scores'])) >= 2, sample=(k % 997 == 5))
